@@ -578,6 +578,54 @@ def rule_r10(repo, run, helpers, table):
     run.floor(R, "result entries that allocate", ne, 2)
 
 
+NEW_REFERENCE_API = ("PyBool_FromLong", "PyString_FromStringAndSize", "PyString_FromString", "PyArray_SimpleNewFromData",
+                     "PyArray_SimpleNew", "PyArray_NewFromDescr", "PyArray_FROM_OTF", "PyArray_FromAny", "PyObject_New",
+                     "PyCapsule_New", "{hnamefunc0}", "{hnamefunc1}", "{PY_to_object_idtor_func}", "PyInt_FromLong",
+                     "PyFloat_FromDouble", "PyList_New", "Py_BuildValue")
+
+
+def rule_r11(repo, run):
+    R = run.rule("C06.R11", "Python objects a wrapper creates for its return tuple are owned by the tuple: a new reference is "
+                            "handed over with \"N\" (or released), a borrowed argument object with \"O\"")
+    py = tables.StatementTable(repo, "wrapp", "py_statements")
+    wp = repo.module("wrapp")
+    new, borrowed, n = [], [], 0
+    for name, e in sorted(py.resolve_all("c++").items()):
+        if e.get("object_created") is not True:
+            continue
+        n += 1
+        text = " ".join(l.replace("\t", " ") for c in ("post_declare", "post_parse", "pre_call", "post_call") for l in e.lines(c))
+        m = re.search(r"\{py_var\}\s*=\s*(?:\{cast_\w+\}[^;]*?\{cast1\})?\s*([A-Za-z_{}0-9]+)\s*\(", text)
+        if m is None:
+            borrowed.append(name)   # nothing is assigned: the parsed argument object itself goes back
+            continue
+        run.check(R, "wrapp.py_statements[%s]:creator" % name, m.group(1) in NEW_REFERENCE_API,
+                  "object_created entry assigns {py_var} from %s(), which is not in the table of CPython calls known to return "
+                  "a new reference" % m.group(1), py.loc(e.raw))
+        new.append(name)
+        released = any("Py_DECREF({py_var})" in l or "Py_XDECREF({py_var})" in l for l in e.lines("cleanup"))
+        if released:
+            raise AnalysisError("C06.R11: %s releases its object in cleanup: ownership model out of date" % name)
+    run.floor(R, "object_created entries", n, 30)
+    io = wp.func("Wrapp.intent_out")
+    arms = [i for i in ast.walk(io) if isinstance(i, ast.If) and "object_created" in wp.seg(i.test)]
+    if len(arms) != 1:
+        raise AnalysisError("C06.R11: object_created arm of Wrapp.intent_out not found")
+    fmts = [a.value.value for st in arms[0].body for a in ast.walk(st) if isinstance(a, ast.Assign)
+            and pyflow.is_name(a.targets[0], "build_format") and isinstance(a.value, ast.Constant)]
+    run.check(R, "wrapp.Wrapp.intent_out:object_created:build_format", fmts == ["N"] or not new,
+              "an object the wrapper created (%d entries, e.g. %s) is put into the return tuple with %r: \"O\" takes a second "
+              "reference and the wrapper never releases its own - every call leaks the object (a NumPy array with its "
+              "capsule, a list, a class instance)" % (len(new), ", ".join(new[:3]), fmts), wp.loc(arms[0]))
+    wf = wp.func("Wrapp.wrap_function")
+    repl = [c for c in ast.walk(wf) if isinstance(c, ast.Call) and isinstance(c.func, ast.Attribute) and c.func.attr == "_replace"
+            and any(k.arg == "format" and isinstance(k.value, ast.Constant) and k.value.value == "O" for k in c.keywords)]
+    guarded = [c for c in repl if any("inout" in str(wp.seg(t)) for t, pol in pyflow.dominating_tests(c, stop=wf))]
+    run.check(R, "wrapp.Wrapp.wrap_function:borrowed-object:build_format", bool(guarded) or not borrowed or fmts != ["N"],
+              "entries %s hand back the argument object parsed with \"O!\" (a borrowed reference): with \"N\" the tuple would "
+              "steal the caller's reference - they need \"O\"" % borrowed[:4], wp.loc(wf))
+
+
 def run(repo, run, tier):
     tables.check_model_assumptions(repo)
     table = tables.StatementTable(repo, "statements", "fc_statements")
@@ -620,3 +668,4 @@ def run(repo, run, tier):
     rule_r8(repo, run)
     rule_r9(repo, run, helpers)
     rule_r10(repo, run, helpers, table)
+    rule_r11(repo, run)
